@@ -755,9 +755,16 @@ impl Property for C04 {
             "the extractor is structural (node kinds, token positions); it does not vouch for typed accessors on ambiguous kinds (HOLE)".into(),
         ]
     }
+    fn fuzz(&self) -> Option<crate::FuzzSpec> {
+        Some(crate::FuzzSpec { label: "c04-programs", max_len: 400, runs: 150000 })
+    }
     fn run(&self, ctx: &mut Ctx) {
         let ops: Vec<&'static str> = g::BIN_OPS.iter().map(|(o, _)| *o).collect();
         let n = ops.len();
+        'enumerations: {
+        if ctx.fuzzing() {
+            break 'enumerations;
+        }
         let mut local: HashSet<u64> = HashSet::new();
         // (a) exhaustive triples x operand forms
         let mut k = 0u64;
@@ -821,6 +828,7 @@ impl Property for C04 {
         }
         ctx.space("operator pairs x operand forms^3", k2);
         ctx.stats.nt_disjoint += local.len() as u64;
+        }
 
         // (b) generated modules
         let cases = ctx.tier.pick(150_000, 3_000_000);
